@@ -120,7 +120,7 @@ let h_loader args = match args with
       | Either.Left p ->
         [chk "C09" (c09_checkb p); chk "C10" (c10_checkb d p); chk "C11" (c11_accept_ok d p);
          chk "C12" (c12_order_checkb p && c12_classify_checkb p)]
-      | Either.Right (Some e) -> [chk "C11" (c11_error_ok d e)]
+      | Either.Right (Some e) -> [chk "C11" (c11_error_okw d e)]
       | Either.Right None -> [chk "C11" false] in
     [L [A "model"; enc_load_res (load_proc_desc d)]; L (A "chk" :: checks)]
   | _ -> bad "loader args"
